@@ -1438,6 +1438,99 @@ theorem commit_none (ck : CK F) (p : MVPoly F) (rng : Bool) (draws : List F) (c 
       injection h with h; injection h with h1 h2; injection h2 with h2 h3
       exact ⟨h2.symm, h3.symm⟩
 
+/-- **What a hiding `commit` draws.** If `commit` with hiding bound `hb` succeeds, an RNG was
+given, `1 ≤ hb ≤ supported_degree`, exactly `1 + num_vars·(hb+1)` draws were taken from the caller's
+stream (the rest is returned untouched), and the blinding polynomial is
+`from_coefficients_vec` of those draws against the terms `1, x_v^j` (`v < num_vars`,
+`1 ≤ j ≤ hb+1`) in that order. -/
+theorem commit_some (ck : CK F) (p : MVPoly F) (hb : Nat) (rng : Bool) (draws : List F) (c : F)
+    (r : MVPoly F) (rest : List F) (h : commit ck p (some hb) rng draws = .ok (c, r, rest)) :
+    rng = true ∧ 1 ≤ hb ∧ hb ≤ ck.supportedDegree ∧ 1 + ck.numVars * (hb + 1) ≤ draws.length ∧
+      r = fromCoeffs (List.zip (draws.take (1 + ck.numVars * (hb + 1))) (randTerms (hb + 1) ck.numVars)) ∧
+      rest = draws.drop (1 + ck.numVars * (hb + 1)) := by
+  unfold commit at h
+  split at h
+  · cases h
+  · split at h
+    · cases h
+    · simp only at h
+      split at h
+      · cases h
+      · rename_i hrng
+        split at h
+        · cases h
+        · rename_i rr hrr
+          split at h
+          · cases h
+          · rename_i hchk
+            split at h
+            · cases h
+            · injection h with h; injection h with h1 h2; injection h2 with h2 h3
+              unfold randMV at hrr
+              split at hrr
+              · cases hrr
+              · rename_i hlen
+                injection hrr with hrr
+                unfold checkHidingBound at hchk
+                split at hchk
+                · cases hchk
+                · split at hchk
+                  · cases hchk
+                  · refine ⟨by simpa using hrng, by omega, by omega, by omega, ?_, ?_⟩
+                    · rw [← h2, ← hrr]
+                    · rw [← h3, ← hrr]
+
+/-- hiding bound `0` (and any bound above the supported degree) is refused, whatever else is given -/
+theorem commit_hiding_refused (ck : CK F) (p : MVPoly F) (hb : Nat) (rng : Bool) (draws : List F)
+    (hbad : hb = 0 ∨ ck.supportedDegree < hb) (out : F × MVPoly F × List F) :
+    commit ck p (some hb) rng draws ≠ .ok out := by
+  intro h
+  obtain ⟨c, r, rest⟩ := out
+  have := commit_some ck p hb rng draws c r rest h
+  omega
+
+theorem addScaled_nil_nil (ξ : F) : addScaledMV ([] : MVPoly F) ξ [] = [] := by
+  simp [addScaledMV, addMV, scaleMV, mergeMV, removeZeros]
+
+/-- **`random_v` is the blinding value at the point** (one polynomial): `None` exactly when the
+combined blinding polynomial `ξ·r` is zero, else `Some((ξ·r)(z))`; in both cases its value is
+`ξ·r(z)`. -/
+theorem open_random_v (ck : CK F) (nvp nvr : Nat) (p r : MVPoly F) (z : List F) (ξ : F)
+    (ξs : List F) (π : Proof F) (hr : ∀ t ∈ termsOf r, Term.wf t = true)
+    (ho : PST.open ck nvp nvr [p] z [r] (ξ :: ξs) = .ok π) :
+    π.rv = (if isZeroMV (addScaledMV [] ξ r) then none else some (evalMV (addScaledMV [] ξ r) z))
+      ∧ rvVal π.rv = ξ * evalMV r z := by
+  have heval : evalMV (addScaledMV ([] : MVPoly F) ξ r) z = ξ * evalMV r z := by
+    rw [evalMV_addScaledMV _ _ _ _ (fun t ht => by simp [termsOf] at ht) hr]; simp
+  unfold PST.open at ho
+  simp only [combine] at ho
+  split at ho
+  · cases ho
+  · rename_i cc hcc
+    split at hcc
+    · cases hcc
+    · injection hcc with hcc
+      subst hcc
+      unfold openCombined at ho
+      split at ho
+      · cases ho
+      · simp only at ho
+        split at ho
+        · rename_i hz
+          injection ho with ho
+          subst ho
+          simp only [hz, if_true, rvVal]
+          exact ⟨trivial, by rw [← heval, evalMV_of_isZero _ hz]⟩
+        · rename_i hz
+          split at ho
+          · cases ho
+          · split at ho
+            · cases ho
+            · injection ho with ho
+              subst ho
+              simp only [hz, rvVal, heval]
+              simp
+
 /-- what a committer key must contain is what the trimmed specification list contains -/
 theorem covered_mem_filter (nv s : Nat) (ts : List Term)
     (hts : ∀ t, Covered nv s t → t ∈ ts) :
